@@ -886,6 +886,61 @@ theorem cluster_token_agrees_with_prepared (schema : TableSnapshot) (ks table : 
   rw [clusterComputeToken_formula schema ks table tables t comps hks ht hcount hcne hmax hsmall]
   cases selectPartitioner t.partitioner <;> simp
 
+/-- **The two token paths DIVERGE on a null key component** (outside the server's domain: it rejects such a request).
+For a two-column key `(v, NULL)` — or `(v, unset)` — `PreparedStatement::calculate_token` drops the null component and
+hashes the single remaining one RAW (`write_encoded_partition_key`, prepared.rs:826-846, decides by the number of
+non-null values), whereas `ClusterState::compute_token` keeps the composite framing `be16 |v| ++ v ++ [0]` of the one
+value (`calculate_token_for_partition_key`, partitioner.rs:401-418, decides by `element_count()`, nulls included).
+`cluster_token_agrees_with_prepared` therefore needs its hypothesis that every component is bound. -/
+theorem null_component_paths_diverge (schema : TableSnapshot) (ks table : List UInt8)
+    (tables : List (List UInt8 × TableInfo)) (t : TableInfo) (v : List UInt8) (missing : RawValue)
+    (hks : schema.lookup ks = some tables) (ht : tables.lookup table = some t) (h2 : t.pkColumns = 2)
+    (hm : missing = .null ∨ missing = .unset) (hv : v.length ≤ 65535) :
+    calculateToken (selectPartitioner t.partitioner == .cdc) (pkIndexesOfWire [1, 0]) [missing, .value v] =
+        .ok (some (if selectPartitioner t.partitioner = .cdc then cdcRust v else murmur3Spec v)) ∧
+    clusterComputeToken schema ks table [.value v, missing] =
+        .ok (if selectPartitioner t.partitioner = .cdc then cdcRust (be16 v.length ++ v ++ [0])
+             else murmur3Spec (be16 v.length ++ v ++ [0])) := by
+  have hcc : compositeChunks [v] = .ok [be16 v.length, v, [0]] := by
+    unfold compositeChunks
+    rw [if_neg (by omega)]
+    rfl
+  rcases hm with rfl | rfl
+  all_goals
+    constructor
+    · rw [token_formula_nulls _ [1, 0] _ (by decide) (by decide) (by simp) (by simp)
+        (by simp [keyOf, List.getD, RawValue.asValue])]
+      cases selectPartitioner t.partitioner <;> simp [keyOf, List.getD, RawValue.asValue, encodeKey]
+    · unfold clusterComputeToken
+      rw [hks]; simp only []; rw [ht]; simp only []
+      rw [if_neg (by simp [h2])]
+      unfold tokenForPartitionKey
+      simp only [List.filterMap_cons, RawValue.asValue, List.filterMap_nil, hcc]
+      unfold hashChunks
+      cases selectPartitioner t.partitioner
+      · simp only [show (PartitionerName.murmur3 == PartitionerName.cdc) = false from rfl, Bool.false_eq_true,
+          if_false]
+        rw [chunking_independent]
+        simp
+      · simp only [show (PartitionerName.cdc == PartitionerName.cdc) = true from rfl, if_true]
+        rw [cdc_chunking_independent]
+        simp
+
+-- the witness the round-3 auditor computed: key (0xaa, NULL) - the two paths give different tokens
+example :
+    calculateToken false (pkIndexesOfWire [1, 0]) [.null, .value [0xaa]] = .ok (some (-3327552019147923729)) ∧
+    clusterComputeToken [([1], [([2], ⟨2, none⟩)])] [1] [2] [.value [0xaa], .null] = .ok 5270662526782195771 := by
+  have h := null_component_paths_diverge [([1], [([2], ⟨2, none⟩)])] [1] [2] [([2], ⟨2, none⟩)] ⟨2, none⟩ [0xaa] .null
+    rfl rfl rfl (Or.inl rfl) (by decide)
+  have e1 : murmur3Spec [0xaa] = -3327552019147923729 := by decide +kernel
+  have e2 : murmur3Spec (be16 [(0xaa : UInt8)].length ++ [0xaa] ++ [0]) = 5270662526782195771 := by decide +kernel
+  have hs : selectPartitioner (none : Option (List UInt8)) = .murmur3 := rfl
+  obtain ⟨h1, h2⟩ := h
+  simp only [hs] at h1 h2
+  rw [e1] at h1
+  rw [e2] at h2
+  exact ⟨h1, h2⟩
+
 -- non-vacuity: ks.comp with a two-column key; statement markers (b, a); both paths give the composite token
 example :
     clusterComputeToken [([1], [([2], ⟨2, none⟩)])] [1] [2] [.value [0xa1], .value [0xb2]] =
